@@ -251,6 +251,40 @@ def r_C25(root):
     want = ["cur.A", "imp1.B", "imp2.C", "raise KeyError", "imp2.B"]
     if got != want:
         out.append(Finding("C25", "C25.a", rel, "TextXMetaModel.__getitem__", "lookup of A, B, C, D, imp2.B -> %s" % got, "name lookup on a sample metamodel (current namespace {A}, imports [{A,B}, {B,C}]) yields %s, documented order (current namespace, then imports in import order, qualified names directly) gives %s" % (got, want)))
+    # C25.o  the sibling readers of the namespaces agree: `name in metamodel` holds exactly when metamodel[name] finds a class, and iterating
+    # the meta-model yields every class of the current namespace and of the namespaces it imports (base types first among the imports)
+    ci = find_i(root, rel, "TextXMetaModel.__contains__"); ii = find_i(root, rel, "TextXMetaModel.__iter__")
+    base = {"INT": "base.INT", "ID": "base.ID"}; cur2 = {"A": "cur.A", "INT": "cur.INT"}; other = {"Z": "other.Z", "A": "other.A"}; nested = {"Q": "pkg.sub.Q"}
+    def self2():
+        return {".kind": "metamodel", "._namespace_stack": ["cur"], "._imported_namespaces": {"cur": [base, imp1, imp2], "other": [base], "pkg.sub": [base]}, ".namespaces": {"__base__": base, "cur": cur2, "imp1": imp1, "imp2": imp2, "other": other, "pkg.sub": nested}, ".referenced_languages": {}, ".debug": False}
+    def fns_of(q):
+        f_ = dict(helper_functions(root, rel, q)); f_["__getitem__"] = gi
+        f_.pop(q.split(".")[-1], None); return f_
+    names = ["A", "INT", "ID", "B", "C", "D", "Z", "Q", "imp2.B", "imp2.D", "other.Z", "other.B", "pkg.sub.Q", "pkg.sub.Z", "nope.A", "pkg.Q"]
+    try:
+        for nm in names:
+            inst += 1
+            s2 = self2(); env = {gi.args.args[1].arg: nm, gi.args.args[0].arg: s2, "__functions__": fns_of("TextXMetaModel.__getitem__")}
+            try: found = ("found", pyeval.run_block(gi.body, env))
+            except pyeval.Raised as r: found = ("raise", r.cls)
+            s2 = self2(); env = {ci.args.args[1].arg: nm, ci.args.args[0].arg: s2, "__functions__": fns_of("TextXMetaModel.__contains__")}
+            try: has = ("ret", pyeval.run_block(ci.body, env))
+            except pyeval.Raised as r: has = ("raise", r.cls)
+            okc = has[0] == "ret" and isinstance(has[1], bool) and has[1] == (found[0] == "found")
+            ob("C25", "C25.o", rel, "TextXMetaModel.__contains__", "%r in metamodel" % nm, okc)
+            if not okc:
+                out.append(Finding("C25", "C25.o", rel, "TextXMetaModel.__contains__", "%r in metamodel" % nm, "on a sample meta-model (current namespace {A, INT}, imports [base types, {A,B}, {B,C}], two more grammar files `other` {Z,A} and `pkg.sub` {Q} that the current file does not import) `%r in metamodel` %s while metamodel[%r] %s: the existence test that guards every lookup in the grammar compiler disagrees with the lookup (an unknown rule is then a bare KeyError, or a known one is reported unknown)" % (nm, "is %r" % (has[1],) if has[0] == "ret" else "raises " + str(has[1]), nm, "finds " + str(found[1]) if found[0] == "found" else "raises " + str(found[1]))))
+        inst += 1
+        s2 = self2(); env = {ii.args.args[0].arg: s2, "__functions__": fns_of("TextXMetaModel.__iter__")}
+        try: got_it = ("ret", list(pyeval._gen_call(ii.body, env)) if pyeval._own_yield0(ii) else list(pyeval.run_block(ii.body, env)))
+        except pyeval.Raised as r: got_it = ("raise", r.cls)
+    except pyeval.Unsupported as e: raise AnalysisError("TextXMetaModel.__contains__ / __iter__: outside the evaluated subset: %s" % e)
+    want_it = sorted(list(cur2.values()) + list(base.values()) + list(imp1.values()) + list(imp2.values()))
+    visible = {"cur.A", "cur.INT", "base.ID", "imp1.B", "imp2.C"}      # what a lookup by simple name can find; classes shadowed by a nearer namespace may or may not be yielded
+    okc = got_it[0] == "ret" and visible <= set(got_it[1]) <= set(want_it)
+    ob("C25", "C25.o", rel, "TextXMetaModel.__iter__", "classes yielded by iterating the meta-model", okc)
+    if not okc:
+        out.append(Finding("C25", "C25.o", rel, "TextXMetaModel.__iter__", "classes yielded by iterating the meta-model", "iterating the sample meta-model (current namespace {A, INT - a grammar rule named like a base type}, imports [base types, {A,B}, {B,C}]) %s; documented: every class of the current namespace and of its imported namespaces %s (the rule-kind and class-reference passes of the grammar compiler visit the classes this way)" % ("yields %s" % (sorted(got_it[1]),) if got_it[0] == "ret" else "raises " + str(got_it[1]), want_it)))
     ni = find_i(root, rel, "TextXMetaModel._new_import"); inst += 3
     load_call = next((c for c in calls(ni) if callee_name(c) == "metamodel_from_file"), None)
     if load_call is None: raise AnalysisError("import load call not found")
